@@ -8,7 +8,7 @@ cd /verif
 START=$(date +%s)
 ./check $PID $TIER > /var/tmp/try_$SID.$PID.log 2>&1; RC=$?
 END=$(date +%s)
-git -C /repo checkout -- . 
+git -C /repo checkout -- . ; git -C /repo clean -fdq
 grep -E "VIOLATION|KNOWN-FINDING|MACHINERY|what:" /var/tmp/try_$SID.$PID.log | head -6
 echo "seed=$SID property=$PID tier=$TIER exit=$RC wall=$((END-START))s"
 python3 - "$SID" "$PID" "$TIER" "$RC" <<'PY'
